@@ -257,6 +257,7 @@ func sameGV(a, b GV) bool {
 func unmarshalCase(line string, rep *Report, fnd *Findings) {
 	var gl struct {
 		Doc    Doc    `json:"doc"`
+		Env    *Env   `json:"env"`
 		Type   TypeD  `json:"type"`
 		Form   string `json:"form"`
 		Result Expr   `json:"result"`
@@ -292,7 +293,15 @@ func unmarshalCase(line string, rep *Report, fnd *Findings) {
 		rep.infra("result expression does not compile: " + c.err.Error())
 		return
 	}
-	o := execSafe(b.Root, &c.g, nil)
+	if gl.Env == nil {
+		gl.Env = &Env{}
+	}
+	settings, err := b.settings(gl.Env, nil)
+	if err != nil {
+		rep.infra(err.Error())
+		return
+	}
+	o := execSafe(b.Root, &c.g, settings)
 	if o.err != nil || o.panic != nil {
 		rep.infra(fmt.Sprint("result expression failed: ", o.err, o.panic))
 		return
@@ -319,7 +328,7 @@ func unmarshalCase(line string, rep *Report, fnd *Findings) {
 	var pan any
 	func() {
 		defer func() { pan = recover() }()
-		uerr = xsel.Unmarshal(o.res, target)
+		uerr = xsel.Unmarshal(o.res, target, settings...)
 	}()
 	rep.mu.Lock()
 	rep.Cases++
